@@ -67,6 +67,15 @@ class Current(pd.Series):
     # Allow for scalar * Current as well.
     __rmul__ = __mul__
 
+    def __iadd__(self, other):
+        """ a += b rebinds a to a + b (the in-place operator inherited from
+        pandas would cut the result back to the stations already in a). """
+        return self.__add__(other)
+
+    def __isub__(self, other):
+        """ a -= b rebinds a to a - b. """
+        return self.__sub__(other)
+
     def __sub__(self, other):
         """ Return Current which is self minus other.
 
